@@ -95,4 +95,230 @@ theorem mapLookup_mapSet (m : List (κ × ν)) (a k : κ) (v : ν) :
 
 end maps
 
+/-! ### decimal formatting -/
+
+theorem digitsAux_eq : ∀ f n acc, GoRt.digitsAux f n acc = Decimal.digitsAux f n acc := by
+  intro f
+  induction f with
+  | zero => intro n acc; rfl
+  | succ f ih => intro n acc; simp only [GoRt.digitsAux, Decimal.digitsAux, Decimal.digitChar, ih]
+
+theorem natDigits_eq (n : Nat) : natDigits n = Decimal.formatNat n := digitsAux_eq _ _ _
+
+/-- `strconv.Itoa` / `%d` of a non-negative number -/
+theorem itoa_natCast (n : Nat) : itoa (n : Int) = Decimal.formatNat n := by
+  have : ¬ ((n : Int) < 0) := by omega
+  simp only [itoa, this, ↓reduceIte, Int.toNat_natCast, natDigits_eq]
+
+/-- `%03d` of a non-negative number -/
+theorem padDec3_natCast (n : Nat) : padDec 3 (n : Int) = Decimal.pad3 n := by
+  have : ¬ ((n : Int) < 0) := by omega
+  simp only [padDec, this, ↓reduceIte, Int.toNat_natCast, natDigits_eq, Decimal.pad3]
+
+/-- Go `%` on non-negative numbers -/
+theorem rem_natCast (a b : Nat) (hb : b ≠ 0) : rem (a : Int) (b : Int) = .ok (((a % b : Nat)) : Int) := by
+  have : ¬ ((b : Int) = 0) := by omega
+  simp only [rem, this, ↓reduceIte]
+  show Except.ok _ = _
+  rw [Int.tmod_eq_emod_of_nonneg (by omega)]
+  rfl
+
+/-- Go `/` on non-negative numbers -/
+theorem quo_natCast (a b : Nat) (hb : b ≠ 0) : quo (a : Int) (b : Int) = .ok (((a / b : Nat)) : Int) := by
+  have : ¬ ((b : Int) = 0) := by omega
+  simp only [quo, this, ↓reduceIte]
+  show Except.ok _ = _
+  rw [Int.tdiv_eq_ediv_of_nonneg (by omega)]
+  rfl
+
+theorem quo_zero (a : Int) : quo a 0 = .error .panic := by
+  simp only [quo, ↓reduceIte]; rfl
+
+/-! ### strings.Split with a one-byte separator -/
+
+/-- prepend a string to the first element of a split result -/
+def prependHead (p : Bytes) : List Bytes → List Bytes
+  | [] => [p]
+  | h :: t => (p ++ h) :: t
+
+theorem splitOn_ne_nil (c : UInt8) : ∀ s : Bytes, splitOn c s ≠ []
+  | [] => by simp [splitOn]
+  | x :: rest => by
+    unfold splitOn
+    split
+    · simp
+    · split <;> simp
+
+theorem prependHead_nil (l : List Bytes) (h : l ≠ []) : prependHead [] l = l := by
+  cases l with
+  | nil => exact absurd rfl h
+  | cons a t => simp [prependHead]
+
+theorem prependHead_prependHead (p q : Bytes) (l : List Bytes) (h : l ≠ []) :
+    prependHead p (prependHead q l) = prependHead (p ++ q) l := by
+  cases l with
+  | nil => exact absurd rfl h
+  | cons a t => simp [prependHead]
+
+theorem splitOn_cons_ne (c x : UInt8) (rest : Bytes) (h : (x == c) = false) :
+    splitOn c (x :: rest) = prependHead [x] (splitOn c rest) := by
+  rw [splitOn]
+  simp only [h, Bool.false_eq_true, ↓reduceIte]
+  cases hs : splitOn c rest with
+  | nil => exact absurd hs (splitOn_ne_nil c rest)
+  | cons a t => simp [prependHead]
+
+theorem splitAux_eq (c : UInt8) : ∀ (s : Bytes) (f : Nat) (cur : Bytes), s.length < f →
+    splitAux [c] f s cur = prependHead cur.reverse (splitOn c s) := by
+  intro s
+  induction s with
+  | nil =>
+    intro f cur hf
+    obtain ⟨f, rfl⟩ : ∃ g, f = g + 1 := ⟨f - 1, by omega⟩
+    simp [splitAux, splitOn, prependHead]
+  | cons x xs ih =>
+    intro f cur hf
+    obtain ⟨f, rfl⟩ : ∃ g, f = g + 1 := ⟨f - 1, by omega⟩
+    simp only [List.length_cons] at hf
+    rw [splitAux]
+    simp only [isPrefixOfB, Bool.and_true, List.length_cons, List.length_nil, Nat.zero_add, List.drop_succ_cons, List.drop_zero]
+    by_cases hcx : (c == x) = true
+    · have hxc : (x == c) = true := by simpa [eq_comm] using hcx
+      rw [if_pos hcx, ih f [] (by omega)]
+      rw [splitOn]
+      simp only [hxc, ↓reduceIte, List.reverse_nil, prependHead, List.append_nil]
+      rw [prependHead_nil _ (splitOn_ne_nil c xs)]
+    · have hxc : (x == c) = false := by
+        cases h : (x == c) with
+        | false => rfl
+        | true => exact absurd (by simpa [eq_comm] using h) hcx
+      rw [if_neg hcx, ih f (x :: cur) (by omega), splitOn_cons_ne c x xs hxc,
+        prependHead_prependHead _ _ _ (splitOn_ne_nil c xs)]
+      simp
+
+/-- `strings.Split(s, "/")`-style splits are the model's `splitOn` -/
+theorem split_single (s : Bytes) (c : UInt8) : split s [c] = splitOn c s := by
+  unfold split
+  rw [splitAux_eq c s _ [] (by omega)]
+  simp only [List.reverse_nil]
+  exact prependHead_nil _ (splitOn_ne_nil c s)
+
+/-! ### strconv.Atoi -/
+
+theorem atoiDigits_eq : ∀ (s : Bytes) (acc : Nat), atoiDigits s acc = Decimal.parseDigitsAux s acc := by
+  intro s
+  induction s with
+  | nil => intro acc; rfl
+  | cons c cs ih =>
+    intro acc
+    simp only [atoiDigits, Decimal.parseDigitsAux, Decimal.isDigit, ih]
+    have h1 : ((48 : UInt8) ≤ c) ↔ 48 ≤ c.toNat := by rw [UInt8.le_iff_toNat_le]; rfl
+    have h2 : (c ≤ (57 : UInt8)) ↔ c.toNat ≤ 57 := by rw [UInt8.le_iff_toNat_le]; rfl
+    by_cases a : 48 ≤ c.toNat <;> by_cases b : c.toNat ≤ 57 <;> simp [h1, h2, a, b]
+
+/-- what `atoi` does after the sign has been removed -/
+def atoiCore (neg : Bool) (ds : Bytes) : Int × Option String :=
+  if ds.isEmpty then (0, some "strconv.Atoi: syntax") else
+  match atoiDigits ds 0 with
+  | none => (0, some "strconv.Atoi: syntax")
+  | some n =>
+    let v : Int := if neg then -(Int.ofNat n) else Int.ofNat n
+    if v < -two63 then (-two63, some "strconv.Atoi: range")
+    else if v ≥ two63 then (two63 - 1, some "strconv.Atoi: range")
+    else (v, none)
+
+theorem atoi_plus (r : Bytes) : atoi (43 :: r) = atoiCore false r := rfl
+theorem atoi_minus (r : Bytes) : atoi (45 :: r) = atoiCore true r := rfl
+theorem atoi_nil : atoi [] = atoiCore false [] := rfl
+theorem atoi_other (c : UInt8) (r : Bytes) (h1 : c ≠ 43) (h2 : c ≠ 45) : atoi (c :: r) = atoiCore false (c :: r) := by
+  unfold atoi atoiCore
+  split
+  · rename_i heq; cases heq; exact absurd rfl h1
+  · rename_i heq; cases heq; exact absurd rfl h2
+  · rfl
+
+/-- `strconv.Atoi` succeeds exactly when the model's `parseInt64` does, with the same value -/
+theorem atoi_spec (s : Bytes) :
+    match Decimal.parseInt64 s with
+    | some v => atoi s = (v, none)
+    | none => (atoi s).2.isNone = false := by
+  have core : ∀ (neg : Bool) (ds : Bytes),
+      match Decimal.parseDigits ds with
+      | some n =>
+        if neg then (if -(n : Int) ≥ Decimal.int64Min then atoiCore neg ds = (-(n : Int), none) else (atoiCore neg ds).2.isNone = false)
+        else (if (n : Int) ≤ Decimal.int64Max then atoiCore neg ds = ((n : Int), none) else (atoiCore neg ds).2.isNone = false)
+      | none => (atoiCore neg ds).2.isNone = false := by
+    intro neg ds
+    unfold Decimal.parseDigits atoiCore
+    by_cases he : ds.isEmpty = true
+    · simp [he]
+    · simp only [he, Bool.false_eq_true, ↓reduceIte, atoiDigits_eq]
+      cases hd : Decimal.parseDigitsAux ds 0 with
+      | none => simp
+      | some n =>
+        simp only [Decimal.int64Min, Decimal.int64Max, two63, Int.ofNat_eq_natCast]
+        cases neg
+        · simp only [Bool.false_eq_true, ↓reduceIte]
+          by_cases hle : (n : Int) ≤ 9223372036854775807
+          · have a : ¬ ((n : Int) < -9223372036854775808) := by omega
+            have b : ¬ ((n : Int) ≥ 9223372036854775808) := by omega
+            simp [hle, a, b]
+          · have a : ¬ ((n : Int) < -9223372036854775808) := by omega
+            have b : ((n : Int) ≥ 9223372036854775808) := by omega
+            simp [hle, a, b]
+        · simp only [↓reduceIte]
+          by_cases hle : -(n : Int) ≥ -9223372036854775808
+          · have a : ¬ (-(n : Int) < -9223372036854775808) := by omega
+            have b : ¬ (-(n : Int) ≥ 9223372036854775808) := by omega
+            simp [hle, a, b]
+          · have a : (-(n : Int) < -9223372036854775808) := by omega
+            simp [hle, a]
+  cases s with
+  | nil => simp [Decimal.parseInt64, atoi_nil, atoiCore]
+  | cons c rest =>
+    unfold Decimal.parseInt64
+    by_cases h43 : c = 43
+    · subst h43
+      have := core false rest
+      simp only [beq_self_eq_true, ↓reduceIte, atoi_plus]
+      cases hp : Decimal.parseDigits rest with
+      | none => rw [hp] at this; simpa using this
+      | some n =>
+        rw [hp] at this
+        simp only [Bool.false_eq_true, ↓reduceIte] at this
+        by_cases hle : (n : Int) ≤ Decimal.int64Max
+        · simp only [hle, ↓reduceIte] at this ⊢; exact this
+        · simp only [hle, ↓reduceIte] at this ⊢; exact this
+    · by_cases h45 : c = 45
+      · subst h45
+        have := core true rest
+        have hne : ((45 : UInt8) == 43) = false := by decide
+        simp only [hne, Bool.false_eq_true, beq_self_eq_true, ↓reduceIte, atoi_minus]
+        cases hp : Decimal.parseDigits rest with
+        | none => rw [hp] at this; simpa using this
+        | some n =>
+          rw [hp] at this
+          simp only [↓reduceIte] at this
+          by_cases hle : -(n : Int) ≥ Decimal.int64Min
+          · simp only [hle, ↓reduceIte] at this ⊢; exact this
+          · simp only [hle, ↓reduceIte] at this ⊢; exact this
+      · have := core false (c :: rest)
+        have hne1 : (c == 43) = false := by simpa using h43
+        have hne2 : (c == 45) = false := by simpa using h45
+        simp only [hne1, hne2, Bool.false_eq_true, ↓reduceIte, atoi_other c rest h43 h45]
+        cases hp : Decimal.parseDigits (c :: rest) with
+        | none => rw [hp] at this; simpa using this
+        | some n =>
+          rw [hp] at this
+          simp only [Bool.false_eq_true, ↓reduceIte] at this
+          by_cases hle : (n : Int) ≤ Decimal.int64Max
+          · simp only [hle, ↓reduceIte] at this ⊢; exact this
+          · simp only [hle, ↓reduceIte] at this ⊢; exact this
+
+theorem atoi_some (s : Bytes) (v : Int) (h : Decimal.parseInt64 s = some v) : atoi s = (v, none) := by
+  have := atoi_spec s; rw [h] at this; exact this
+
+theorem atoi_none (s : Bytes) (h : Decimal.parseInt64 s = none) : (atoi s).2.isNone = false := by
+  have := atoi_spec s; rw [h] at this; exact this
+
 end ModVerif.GoRtTile
